@@ -120,28 +120,17 @@ func contains(l []string, s string) bool {
 
 // mapSafe: extraction from a Go map iterates in random order; only inputs whose result does not
 // depend on that order are sent through the map encoding (the others go through msgpack, whose
-// byte order the model follows).
+// byte order the model follows).  The trace id no longer depends on it (a non-empty meta.trace_id,
+// else the first configured field); what remains is meta.refinery.root=true next to a parent id.
 func mapSafe(fs []field, tn, pn []string) bool {
 	seen := map[string]bool{}
-	carriers := map[string]bool{}
-	metaEmpty, rootTrue, parent := false, false, false
+	rootTrue, parent := false, false
 	for _, f := range fs {
 		if seen[f.k] {
 			return false
 		}
 		seen[f.k] = true
 		switch {
-		case f.k == types.MetaTraceID:
-			if f.t == "s" && f.v == "" {
-				metaEmpty = true
-			}
-		case contains(tn, f.k):
-			if f.t == "s" && f.v != "" {
-				carriers[f.v] = true
-			}
-			if contains(pn, f.k) {
-				return false
-			}
 		case f.k == types.MetaRefineryRoot:
 			if f.t == "b" && f.v == "1" {
 				rootTrue = true
@@ -152,10 +141,7 @@ func mapSafe(fs []field, tn, pn []string) bool {
 			}
 		}
 	}
-	if len(carriers) > 1 || (metaEmpty && len(carriers) > 0) || (rootTrue && parent) {
-		return false
-	}
-	return true
+	return !(rootTrue && parent)
 }
 
 func randVal(r *kit.Rng) (string, string) {
